@@ -6,6 +6,22 @@ sys.path.insert(0, os.environ.get("VERIF_PYDIR", "/verif/.build/py"))
 import pykmertools as pk  # noqa: E402
 
 computers = {}
+
+
+def get_seq(req, enc="utf-8"):
+    """the sequence of a request: hex text, or the compact description of a giant sequence"""
+    g = req.get("giant")
+    if g is None:
+        return bytes.fromhex(req["seq"]).decode(enc)
+    unit = bytes.fromhex(g["unit"]) or b"A"
+    n = g["len"]
+    buf = bytearray((unit * (n // len(unit) + 1))[:n])
+    for f, b in g["edits"]:
+        if n > 0:
+            buf[min((f * n) >> 32, n - 1)] = b
+    return bytes(buf).decode(enc)
+
+
 for line in sys.stdin:
     line = line.strip()
     if not line:
@@ -21,21 +37,30 @@ for line in sys.stdin:
         if req["op"] == "header":
             resp = {"ok": oc.get_header()}
         elif req["op"] == "oligo":
-            seq = bytes.fromhex(req["seq"]).decode("ascii")
+            seq = get_seq(req, "ascii")
             resp = {"ok": oc.vectorise_one(seq, req["norm"])}
         elif req["op"] == "oligo_batch":
             seqs = [bytes.fromhex(s).decode("ascii") for s in req["seqs"]]
             resp = {"ok": oc.vectorise_batch(seqs, req["norm"])}
         elif req["op"] == "kmers":
-            seq = bytes.fromhex(req["seq"]).decode("utf-8")
+            seq = get_seq(req)
             resp = {"ok": [list(t) for t in pk.KmerGenerator(seq, k)]}
+        elif req["op"] == "kmers_digest":
+            # for giant sequences: number of items and a position-sensitive digest instead of the list
+            seq = get_seq(req)
+            n = 0
+            h = 0
+            for f, r in pk.KmerGenerator(seq, k):
+                h = (h * 1000003 + f * 31 + r) & 0xFFFFFFFFFFFFFFFF
+                n += 1
+            resp = {"ok": [n, h]}
         elif req["op"] == "mins":
-            seq = bytes.fromhex(req["seq"]).decode("utf-8")
+            seq = get_seq(req)
             resp = {"ok": [list(t) for t in pk.MinimiserGenerator(seq, req["w"], req["m"])]}
         elif req["op"] == "acgt":
             resp = {"ok": [pk.KmerGenerator("", k).to_acgt(req["x"]), pk.MinimiserGenerator("", k, k).to_acgt(req["x"])]}
         elif req["op"] == "cgr":
-            seq = bytes.fromhex(req["seq"]).decode("utf-8")
+            seq = get_seq(req)
             try:
                 resp = {"ok": [list(p) for p in pk.CgrComputer(req["s"]).vectorise_one(seq)]}
             except ValueError as e:
